@@ -7,8 +7,16 @@ TRUSTED_BASE_COMMON = [
     "dependencies of litefs used but not modelled: github.com/superfly/ltx, bazil.org/fuse, net/http, Go runtime, Linux file system",
 ]
 
+HOOK_COMMITS = []
+NOT_APPLICABLE = {}
+
 PROPS = {
     "C12": {
+        "level_text": "Proof: the Gallina model generated from rwmutex.go on every run refines the POSIX reader/writer spec for every history and any number of owners "
+                      "(Props/C12.v, 10 theorems, closed under the global context); the generated model is additionally re-executed on every edge of the exhaustive "
+                      "4-owner state space explored on the real RWMutex. Full statement of the property; wall-clock latency of the polling variants exercised only.",
+        "level_note": "Trusted: Coq kernel, translator go2coq (state-machine subset; wrappers checked structurally), sync.Mutex, harness. Modelled not verified: goroutine scheduling/latency of Lock(ctx).",
+        "technique": "Coq proof (refinement by invariant over generated model) + translator + vm_compute correspondence",
         "gen": ["RWMutexGen.v"],
         "props_file": "Props/C12.v",
         "coq_targets": ["Props/C12.v"],
